@@ -122,6 +122,7 @@ def run(ctx):
             f.write(json.dumps(dict(o="reset", i=0, j=0, v=0, key="", other=[], r={"k": "init"}, l=[], dk=[], dv=[], dn=0)) + "\n"); nlines += 1
             for e in r["log"]:
                 f.write(json.dumps(e) + "\n"); nlines += 1
+    common.corrupt_trace(tf, ["dn"])
     ttxt, tinfo = common.tlc(ctx, "Trace_ZnColl", "Trace_ZnColl.cfg", workers=1, timeout=900, files=[(tf, "trace.ndjson")], allow_violation=True)
     accepted = not tinfo["violated"]
     if not accepted:
